@@ -467,3 +467,25 @@ func setDiff(a, b val.V) val.V {
 	}
 	return out
 }
+
+// Paths lists every document path the update mentions (action targets and right-hand sides).
+func (u *Update) Paths() []Path {
+	out := []Path{}
+	var walk func(e *UExpr)
+	walk = func(e *UExpr) {
+		if e == nil {
+			return
+		}
+		if e.Kind == "path" || e.Kind == "ifne" {
+			out = append(out, e.Path)
+		}
+		for _, k := range e.Kids {
+			walk(k)
+		}
+	}
+	for _, a := range u.Actions {
+		out = append(out, a.Path)
+		walk(a.RHS)
+	}
+	return out
+}
